@@ -47,9 +47,10 @@ func ruleConfirmCount() *Rule {
 					}
 				}
 				if x, y, ok := p.condPair(f, in); ok && f.Parent == nil {
-					if y == "r.currentTerm" && strings.HasSuffix(x, ".Term") && !strings.HasPrefix(x, "r.") {
+					// (the term of the REPLY; the request's own term is compared with currentTerm too)
+					if y == "r.currentTerm" && strings.HasSuffix(x, ".Term") && !strings.HasPrefix(x, "r.") && x != reqTerm {
 						respTerm = x
-					} else if x == "r.currentTerm" && strings.HasSuffix(y, ".Term") && !strings.HasPrefix(y, "r.") {
+					} else if x == "r.currentTerm" && strings.HasSuffix(y, ".Term") && !strings.HasPrefix(y, "r.") && y != reqTerm {
 						respTerm = y
 					}
 				}
